@@ -185,7 +185,13 @@ def _ones_like(x, dtype=None):
 
 def _array(x, dtype=None, **kw):
   T._no_kw("array", kw, ("copy", "order", "ndmin") if kw.get("ndmin", 0) in (0, None) else ())
-  return T.asarray(x, dtype)
+  r = T.asarray(x, dtype)
+  if isinstance(r, Tensor) and r.tags.get("numpy_owned"):
+    # jnp.asarray / jnp.array of a NumPy array yields a fresh device array (outside a traced region; inside one it
+    # is a constant: T.note_use reports it)
+    T.note_use(r)
+    return Tensor(r.shape, r.dtype, r._fn, T._tags(r))
+  return r
 
 
 def _round(x):
@@ -391,8 +397,12 @@ def lax_cond(pred, true_fun, false_fun, *operands, operand=None, **kw):
     operands = (None,)
   p = _pred_scalar(pred)
   cur().axioms_used.add("lax.cond(p,f,g) = f() if p else g(); both branches are traced")
-  rt = true_fun(*operands)
-  rf = false_fun(*operands)
+  operands = T.as_operands(tuple(operands))
+  nm = lambda f: getattr(f, "__qualname__", None) or getattr(getattr(f, "func", None), "__qualname__", None) or "<fn>"
+  with T.traced_region("lax.cond:" + str(nm(true_fun))):
+    rt = true_fun(*operands)
+  with T.traced_region("lax.cond:" + str(nm(false_fun))):
+    rf = false_fun(*operands)
   arr = lambda l: l if isinstance(l, Tensor) or l is None or not isinstance(l, (int, float, bool, sym.Sym)) else T.asarray(l)
   return _select_tree(p, pytree.tree_map(arr, rt), pytree.tree_map(arr, rf), "cond")
 
@@ -418,11 +428,18 @@ def lax_while_loop(cond_fun, body_fun, init_val):
     lc = it.loop_contracts.get(("lax.while_loop", q))
   # lax.while_loop turns every leaf of the carry into an array
   init_val = pytree.tree_map(lambda l: l if isinstance(l, Tensor) or l is None or not isinstance(l, (int, float, bool, sym.Sym)) else T.asarray(l), init_val)
+  region = lambda st: T.traced_region("lax.while_loop:" + str(q))
+  init_val = T.as_operands(init_val)
   if lc is None:
     state = init_val
     n = 0
-    while bool(_pred_scalar(cond_fun(state))):
-      state = body_fun(state)
+    while True:
+      with region(state):
+        go = bool(_pred_scalar(cond_fun(state)))
+      if not go:
+        break
+      with region(state):
+        state = body_fun(state)
       n += 1
       if n > WHILE_CAP:
         raise _ctx.EngineError(f"lax.while_loop over {q} needs an invariant")
@@ -434,9 +451,12 @@ def lax_while_loop(cond_fun, body_fun, init_val):
   if c.choose(tag):
     lc.havoc(env, None)
     c.assume(lc.inv(env, None))
-    if not bool(_pred_scalar(cond_fun(env["state"]))):
+    with region(env["state"]):
+      go = bool(_pred_scalar(cond_fun(env["state"])))
+    if not go:
       raise PathEnd()
-    env["state"] = body_fun(env["state"])
+    with region(env["state"]):
+      env["state"] = body_fun(env["state"])
     c.oblige(f"{tag}.inv-preserved", lc.inv(env, None), kind="invariant")
     raise PathEnd()
   lc.havoc(env, None)
